@@ -267,6 +267,11 @@ class ShadowLattice:
     # bounds by definition ----------------------------------------------------
     def join(self, members):
         """Least upper bound of the member indexes (None if not unique/exists)."""
+        if self.big:        # no order matrix: scan for the upper bounds, the least is contained in all others
+            ext = self.extents
+            ubs = [k for k in range(self.n) if all(ext[a] & ext[k] == ext[a] for a in members)]
+            least = [u for u in ubs[:1] if all(ext[u] & ext[k] == ext[u] for k in ubs)]
+            return least[0] if least else None
         up, down = self._order()
         ubs = (1 << self.n) - 1
         for a in members:
@@ -275,6 +280,11 @@ class ShadowLattice:
         return least[0] if len(least) == 1 else None
 
     def meet(self, members):
+        if self.big:
+            ext = self.extents
+            lbs = [k for k in range(self.n) if all(ext[k] & ext[a] == ext[k] for a in members)]
+            greatest = [l for l in lbs[-1:] if all(ext[k] & ext[l] == ext[k] for k in lbs)]
+            return greatest[0] if greatest else None
         up, down = self._order()
         lbs = (1 << self.n) - 1
         for a in members:
